@@ -394,6 +394,22 @@ func pItems(tier string) []proto.Item {
 			}
 		}
 	}
+	// UDP: the destination itself answers with a destination-unreachable that is not "port unreachable" (a host firewall
+	// rejecting with host / administratively prohibited): an ICMP error from the target proves arrival, the list ends there
+	for _, v := range proto.Variants {
+		vi := proto.Info(v)
+		if vi.Kind != "udp4" && vi.Kind != "udp6" {
+			continue
+		}
+		for _, form := range []string{"duHost", "duAdmin"} {
+			s := proto.Scn{Variant: v, First: 1, Last: 6, Dest: 3, IPIDBase: 300, EchoBase: 31, TimeoutMs: 300, DelayMs: 10}
+			s.Hops = map[int]proto.HopSpec{}
+			for t := 3; t <= 6; t++ {
+				s.Hops[t] = proto.HopSpec{AtTarget: true, Form: form}
+			}
+			items = append(items, proto.Item{Scn: s, Class: fmt.Sprintf("%s/destination-answers-%s", v, form), Note: map[string]string{"want_len": "3"}})
+		}
+	}
 	// SACK: the destination answers the probes that reach it with a time-exceeded from its own address instead of a
 	// selective acknowledgement (the TTL ran out in its own stack, or a NAT in front of it answers in its name): that proves
 	// arrival for this variant, the list ends there - also when only the LATER probes are answered that way
